@@ -93,7 +93,7 @@ def add_decoys(files, placed, kind, seed):
                 q = os.path.join(d, sub, base)
                 world.write_file(q, fake)
                 out.append(q)
-        elif kind == "longer" and data:
+        elif kind == "longer":
             # same name, the true bytes followed by a tail: verifies as a
             # prefix but has the wrong length
             for sub in ("!first", "~last"):
@@ -374,8 +374,21 @@ class RebuildCheck:
                 world.write_file(os.path.join(
                     search, f"{name}_{i}", rel[-1] if rel else name), data)
         perms = list(itertools.permutations(sorted(os.listdir(mdir))))
+        # the same metafiles split over a file argument and folders
+        mdir_a = os.path.join(sb, "metas_a")
+        mdir_b = os.path.join(sb, "metas_b")
+        os.mkdir(mdir_a)
+        os.mkdir(mdir_b)
+        shutil.copy(mpaths[0], mdir_a)
+        shutil.copy(mpaths[1], mdir_b)
+        shutil.copy(mpaths[2], mdir_b)
         variants = [("list", mpaths, None)] + [("dir", [mdir], p)
                                                for p in perms]
+        variants += [("mixed", [mpaths[0], mdir_b], None),
+                     ("mixed", [mdir_b, mpaths[0]], None),
+                     ("mixed", [mdir_a, mdir_b], None),
+                     ("mixed", [mdir_b, mdir_a], None),
+                     ("mixed", [mpaths[1], mdir_a, mpaths[2]], None)]
         for kind, marg, perm in variants:
             dest = os.path.join(sb, f"dest{len(os.listdir(sb))}")
             os.mkdir(dest)
@@ -387,6 +400,16 @@ class RebuildCheck:
             with seams.ListingSeam(chooser, under=sb):
                 st, cnt = run_rebuild(marg, [search], dest,
                                       route="lib" if kind == "dir" else "cli")
+                if kind == "mixed":
+                    # and through the library entry point as well
+                    dest2 = dest + "_lib"
+                    os.mkdir(dest2)
+                    st2, _ = run_rebuild(marg, [search], dest2, route="lib")
+                    for name, tree, meta in trees:
+                        for p, d in self.judge_c13(meta, tree, dest2, st2, 0):
+                            found.append((f"C13|batch-mixed-lib|{p}",
+                                          {"kind": "batch", "seed": seed,
+                                           "perm": None}, d))
             res.transitions += 1
             res.evals += 1
             res.states += 1
